@@ -225,8 +225,13 @@ def walk (spec : Spec) (cfg : Cfg Float) (t : OutT) (slack : Nat) (inputOf : Nat
   | [] => none
   | (i, o) :: rest =>
     let x := inputOf i
-    -- oracle
+    -- oracle (exact arithmetic): every entry of tables up to 4096 entries; every `size/2048`-th
+    -- entry, both ends and the sign wrap of larger ones
+    let size := 2 ^ cfg.bitsStored
+    let sampled : Bool := size ≤ 4096 || i % (size / 2048) == 0 || i < 8 || i + 8 ≥ size ||
+      (i + 8 ≥ size / 2 && i < size / 2 + 8)
     let bad : Option String :=
+      if !sampled then none else
       match spec.expect x with
       | some (y, tol) =>
         if compatible t o y tol then none
@@ -264,8 +269,7 @@ def handleLut (toks : List String) : String :=
       let cfg : Cfg Float := { kind := kind, bitsStored := bits, signed := signed, slope := p.slopeF, intercept := p.interF, fn := fn, width := p.widthF, center := p.centerF }
       let spec : Spec := { kind := kind, fn := fn, p := p, ymax := (ymaxOf kind bits : Int) }
       let slack := if isWindowed kind && fn == .sigmoid then 2 else 0
-      let mAll := (List.range size).map fun i => lutEntry floatOps cfg t i
-      let modelErr := mAll.any Option.isNone
+      let modelErr : Unit → Bool := fun _ => (List.range size).any fun i => (lutEntry floatOps cfg t i).isNone
       let sgS := if signed then "s" else "u"
       let fS := if isWindowed kind then fnS else "-"
       let sig := s!"lut-{kindS}-b{bits}-{sgS}-{tS}-{fS}"
@@ -279,7 +283,7 @@ def handleLut (toks : List String) : String :=
             | some (y, tol) => y ≤ (lo : Rat) + 1 + tol || y ≥ (hi : Rat) - 1 - tol
             | none => true
         if !justified then "PROP-FAIL class=unexpected-lut-error every exact value fits the output type but the constructor failed"
-        else if !modelErr then "MODEL-DIFF model builds the table, impl=err"
+        else if !(modelErr ()) then "MODEL-DIFF model builds the table, impl=err"
         else s!"ok {sig}-err"
       else if !res.startsWith "ok:" then "BAD-LINE" else
       match unhex (res.drop 3).toString, unhex probeRes with
@@ -309,7 +313,7 @@ def handleLut (toks : List String) : String :=
         else
         match walk spec cfg t slack (lutInput bits signed) ((List.range size).zip vals) with
         | some m => m
-        | none => if modelErr then "MODEL-DIFF model=err impl builds the table" else s!"ok {sig}"
+        | none => s!"ok {sig}"
       | _, _ => "BAD-LINE"
     | _, _, _, _, _, _, _ => "BAD-LINE"
   | _ => "BAD-LINE"
